@@ -378,8 +378,7 @@ def rule_R6(P, rep):
 
 
 def run(P, rep, tier):
-    if tier == "thorough":
-        common.rule_X4(P, rep)
+    common.rule_X4(P, rep)
     v = P.variant
     common.run_shared(P, rep)
     rule_R1(P, rep)
